@@ -283,13 +283,22 @@ PROPS["C11"] = {
             "body as bytes / stream of known or unknown length with trailer / form arguments; also proxy form) serialised by the real req.Write; and server "
             "responses (status lines incl. bodiless and interim 100, 17 header-line shapes incl. obs-fold and malformed, fixed / chunked+trailer / until-close "
             "bodies, size limit, HTTP/1.0) read by the real resp.ReadHeaderAndLimitBody over the scripted connection with EOF or stalled peer under random "
-            "segmentation, and under ALL two-way splits for a sample.",
+            "segmentation, and under ALL two-way splits for a sample. Sequences of 2..6 exchanges through the real client.Client/HostClient.Do against an "
+            "in-memory keep-alive peer (op c11seq): ONE Request object per sequence that is fresh / Reset / released to the pool and re-acquired / kept as it is "
+            "between uses (URL with query, args API Add/Peek, DisablePathNormalizing, headers, cookies, Connection: close, byte and stream bodies); per exchange "
+            "a generated response (interim 100, fixed / chunked+trailer / until-close / bodiless, sizes around MaxResponseBodySize incl. oversize documents that "
+            "look like HTTP responses, HTTP/1.0, Connection: close, peer closing silently afterwards, 1/8 mutated or truncated, trailing bytes), configurations "
+            "MaxResponseBodySize unset/10/64/1000, header-name normalisation on/off, peer delivering 1/7/100 bytes per read, one Response object reused or not.",
     "level_text": "Lean models of the request writer (header block model of C05 + body encodings of C04) and of the response reader (first line, scanner, 100-continue skip, "
                   "fixed/chunked/identity bodies, limit) are compared with the real code on every case; theorems for all inputs: the size limit is enforced on every accepted "
                   "response, bodiless statuses never carry a body. Spec step: every written request is read identically by the strict decoder, by the model of hertz's own "
-                  "server reader and by net/http; every conforming response comes back with the same status, fields and body.",
+                  "server reader and by net/http, AND these are the target and Host of the URL (+ args) the application gave (URI model of C17); every conforming response comes back with the same status, fields and body. "
+                  "Sequences: the exchange model (Model/Http1/Exchange: acquire idle or dial, write, Peek(1), ReadHeaders, ReadRespBody with limit, close on any error / Connection: close, "
+                  "else release with the unread bytes; ErrBadPoolConn retry of idempotent methods) predicts per exchange the bytes the peer receives, the number of dials and the whole result; "
+                  "spec per exchange: as long as the peer has conformed so far, the request arrives as given and the response comes back as sent whatever happened before. Theorems for all "
+                  "inputs: a failed exchange never returns its connection to the pool; on a pool without unread bytes every exchange returns what its own response bytes give alone, for every sequence.",
     "level_note": _H1_NOTE + " HostClient.Do's pool/retry logic is C10; multipart uploads (fields, file readers delivering content in pieces around the 512-byte sniffing buffer) are written by the real code and decoded by net/http and by hertz's own reader, the multipart syntax itself is mime/multipart's and is not modelled; response streaming mode reuses the "
-                  "C14 body-stream model and is not separately compared here.",
+                  "C14 body-stream model and is not separately compared here (c11seq runs buffered mode only). In c11seq all URLs of a sequence share one authority (one pool); the read deadline of the in-memory peer expires at once when it has nothing to send.",
     "assumptions": ["net/http.ReadRequest as second opinion", "header values set by the application are free of control bytes (CR/LF are C05; NUL etc. are written verbatim)"],
 }
 
